@@ -210,7 +210,7 @@ func (f *fakeClient) blockAt(height *int64) (*blk, error) {
 	if height != nil {
 		h = *height
 	}
-	if h < 1 || h > f.getLatest() || h > int64(len(f.w.blocks)) {
+	if h < 1 || h > f.getLatest() || h > int64(len(f.w.blocks)) || h < f.earliest {
 		return nil, fmt.Errorf("height %d is not available", h)
 	}
 	return f.w.blocks[h-1], nil
